@@ -152,6 +152,23 @@ let handle_bulk (toks : string list) : (string * string * string) option =
        (* REFUSED: abort, or a null return with nothing copied (the application-side malloc of an absurd size fails first) *)
        let ss = if num = Z0 then "REFUSED" else if counted_good l src num elsz then "OK copy copied" else "REFUSED" in
        Some (ms, ss, "deny:" ^ elk ^ (if ss = "REFUSED" then ":refuse" else ":ok"))
+     | "grant", [src; num; ret] ->
+       (* copy_memory_or_grant_access (copy path), char buffers: malloc_in_sandbox (back end returns rep [ret]),
+          then rlbox::memcpy into it *)
+       let src = zs src and num = zs num and ret = zs ret in
+       let sa = List.hd l in
+       let m = copy_or_grant guarded l sa tot src num (z_of_int 1) ret in
+       let ms = (match m with
+           | Ok [] -> "OK 0"
+           | Ok (WR (p, _) :: _) -> "OK " ^ string_of_z p ^ " copied"
+           | Ok _ -> "?" | Abort -> "ABORT" | Fault -> "FAULT" | Diverge -> "DIVERGE") in
+       (* what C10 demands: carried out only if the destination [p, p+num) is inside sandbox A and the source range is good *)
+       let p = unsandbox sa ret in
+       let ss = if num = Z0 then "ABORT"
+         else if Z.ltb (z_of_string "4294967295") num then "ABORT"
+         else if p = Z0 then "OK 0"
+         else if range_inside sa p num && range_good l src num && Z.leb num tot then "OK " ^ string_of_z p ^ " copied" else "ABORT" in
+       Some (ms, ss, "grant:" ^ (if ss = "ABORT" then "refuse" else "ok"))
      | "usp", [p; elk; count] ->
        let p = zs p and count = zs count in
        let elsz = sizeof labi_host (ptee_of_string elk) in
